@@ -95,9 +95,10 @@ class Ctx(object):
         os.makedirs(os.path.join(VERIF, "replays"), exist_ok=True)
         for key, h in sorted(self.known_hits.items()):
             print("KNOWN-FINDING: property=%s %s (%d observations)" % (self.prop, h["finding"].get("what", key), h["n"]))
-        replay = None
+        replay = os.path.join(VERIF, "replays", "%s-%s-%d.json" % (self.prop, self.tier, self.seed))
+        if not self.violations and os.path.exists(replay):
+            os.remove(replay)
         if self.violations:
-            replay = os.path.join(VERIF, "replays", "%s-%s-%d.json" % (self.prop, self.tier, self.seed))
             with open(replay, "w") as f:
                 json.dump({"property": self.prop, "seed": self.seed, "tier": self.tier,
                            "violations": self.violations[:200]}, f, indent=1, default=str)
